@@ -20,7 +20,8 @@ def checksum(line68):
 
 def fmt_expo(mant_digits, sign, exp, expsign=None):
     """8-char field: sign char, 5 digits, exponent sign, exponent digit."""
-    assert len(mant_digits) == 5
+    if not (len(mant_digits) == 5):
+        raise RuntimeError('len(mant_digits) == 5')
     if expsign is None:
         expsign = "-" if exp < 0 else "+"
     return "%s%s%s%d" % (sign, mant_digits, expsign, abs(exp))
@@ -31,10 +32,12 @@ def encode(f):
     l1 = "1 %5s%s %2s%3s%-3s %2s%12s %10s %8s %8s %1s %4s" % (
         f["satnum"], f["classification"], f["launch_year"], f["launch_number"], f["launch_piece"],
         f["epoch_year"], f["epoch_day"], f["ndot"], f["nddot"], f["bstar"], f["ephemeris"], f["elnum"])
-    assert len(l1) == 68, (len(l1), l1)
+    if not (len(l1) == 68):
+        raise RuntimeError((len(l1), l1))
     l2 = "2 %5s %8s %8s %7s %8s %8s %11s%5s" % (
         f["satnum"], f["incl"], f["raan"], f["ecc"], f["argp"], f["manom"], f["mmotion"], f["rev"])
-    assert len(l2) == 68, (len(l2), l2)
+    if not (len(l2) == 68):
+        raise RuntimeError((len(l2), l2))
     return l1 + str(checksum(l1)), l2 + str(checksum(l2))
 
 
